@@ -114,4 +114,422 @@ theorem table_entries_are_documented_shapes :
     allKinds.all (kindOK true) = true ∧ allKinds.all (kindOK false) = true := by
   constructor <;> decide +kernel
 
+/-! ## 2. shape lemmas: one argument (or result) through both wrappers, for ALL values
+
+`runArg F C byRef actual call` evaluates the composition F pre_call ; bind(C) actuals ;
+C pre_call ; library ; C post_call ; storage association ; F post_call. -/
+
+@[simp] theorem natOfInt_cast (n : Nat) : natOfInt (n : Int) = some n := by
+  simp [natOfInt]
+
+theorem lenTrim_full (t : Buf) : lenTrim t t.length = .ok (rtrim t).length := by
+  have hl := lenTrim_eq_rtrim t t.length (Nat.le_refl _)
+  rwa [List.take_length] at hl
+
+/-- unfolding set for the interpreter on concrete op lists -/
+macro "run_simp" "[" ls:Lean.Parser.Tactic.simpLemma,* "]" : tactic =>
+  `(tactic| simp [runArg, Kind.fspec, Kind.cspec, run, step, execOp, fInit, boundary, bindAll, bindArg, St.get,
+      St.set, St.resolve, assocGet, assocSet, CSpec.storage, CSpec.callVar, Res.bind, St.buf, St.nat, St.int,
+      liftBuf, lenTrim_full, $ls,*])
+
+/-! ### logical <-> bool -/
+
+/-- `bool` by value: the library receives exactly the caller's truth value; nothing comes back -/
+theorem bool_in (b : Bool) (lib : Val → Val) :
+    runArg Kind.boolIn.fspec (Kind.boolIn.cspec false) false (.bool b) (.arg lib)
+      = .ok ⟨some (.bool b), .bool b, 0⟩ := by
+  run_simp []
+
+/-- `bool *` intent(out): whatever truth value the library stores is what the caller's logical holds -/
+theorem bool_out (b0 b' : Bool) :
+    runArg Kind.boolOut.fspec (Kind.boolOut.cspec false) true (.bool b0) (.arg fun _ => .bool b')
+      = .ok ⟨some .null, .bool b', 0⟩ := by
+  run_simp []
+
+/-- `bool *` intent(inout): the library receives the caller's value and the caller receives the library's -/
+theorem bool_inout (b : Bool) (f : Bool → Bool) :
+    runArg Kind.boolInout.fspec (Kind.boolInout.cspec false) true (.bool b)
+        (.arg fun v => match v with | .bool x => .bool (f x) | v => v)
+      = .ok ⟨some (.bool b), .bool (f b), 0⟩ := by
+  run_simp []
+
+/-! ### native scalars, pointers and arrays (default blocks: pure pass-through) -/
+
+/-- by value: delivered unchanged (integers; reals as opaque values), caller's variable untouched -/
+theorem scalar_by_value (v : Val) (lib : Val → Val) :
+    runArg Kind.native.fspec (Kind.native.cspec false) false v (.arg lib) = .ok ⟨some v, v, 0⟩ := by
+  run_simp []
+
+/-- pointer / reference / array: the library works on the caller's storage itself; intent in
+    (`lib = id`), out and inout alike; for an array the extent is the length of the same list -/
+theorem pointer_pass_through (v : Val) (lib : Val → Val) :
+    runArg Kind.native.fspec (Kind.native.cspec false) true v (.arg lib) = .ok ⟨some v, lib v, 0⟩ := by
+  run_simp []
+
+example : runArg Kind.native.fspec (Kind.native.cspec false) true (.arr [1, 2, 3]) (.arg fun _ => .arr [4, 5, 6])
+    = .ok ⟨some (.arr [1, 2, 3]), .arr [4, 5, 6], 0⟩ := by decide
+
+/-- implied arguments: `size(a)`, `len(s)`, `len_trim(s)` of another argument, as the library gets them -/
+theorem implied_values (a : List Int) (t : Buf) :
+    inquiry 1 (.arr a) = some (a.length : Int) ∧ inquiry 2 (.buf t) = some (t.length : Int) ∧
+    inquiry 3 (.buf t) = some ((rtrim t).length : Int) := ⟨rfl, rfl, rfl⟩
+
+/-! ### character input -/
+
+/-- `const char *` (no bufferify needed): `trim(x)//C_NULL_CHAR` -/
+theorem char_in_ftrim (t : Buf) :
+    runFtrim (.buf t) = .ok ⟨some (.buf (rtrim t ++ [NUL])), .buf t, 0⟩ := rfl
+
+/-- `c_char_*_in_buf`: the library receives a fresh block holding exactly the text without its
+    trailing blanks, NUL terminated; the caller's variable is unchanged; the block is released -/
+theorem char_in_buf (t : Buf) :
+    runArg Kind.charIn.fspec (Kind.charIn.cspec false) true (.buf t) (.arg id)
+      = .ok ⟨some (.buf (rtrim t ++ [NUL])), .buf t, 0⟩ := by
+  run_simp [strAlloc_in_buf]
+
+/-- `c_char_*_in_cfi`: same text and terminator (the block is `len + 1` bytes long) -/
+theorem char_in_cfi (t : Buf) :
+    runArg Kind.charIn.fspec (Kind.charIn.cspec true) true (.buf t) (.arg id)
+      = .ok ⟨some (.buf (rtrim t ++ NUL :: List.replicate (t.length - (rtrim t).length) UNINIT)), .buf t, 0⟩ := by
+  run_simp [(strAlloc_inout t).2, (strAlloc_inout t).1]
+
+/-- `std::string` input (`c_string_*_in_buf`, `&` alike): the string is the text without trailing blanks -/
+theorem string_in_buf (t : Buf) :
+    runArg Kind.stringIn.fspec (Kind.stringIn.cspec false) true (.buf t) (.arg id)
+      = .ok ⟨some (.str (rtrim t)), .buf t, 0⟩ := by
+  run_simp [rtrim_length_le, ← rtrim_prefix]
+
+theorem string_in_cfi (t : Buf) :
+    runArg Kind.stringIn.fspec (Kind.stringIn.cspec true) true (.buf t) (.arg id)
+      = .ok ⟨some (.str (rtrim t)), .buf t, 0⟩ := by
+  run_simp [rtrim_length_le, ← rtrim_prefix]
+
+/-! ### character output -/
+
+/-- `std::string &` intent(out) into `character(len=L)`: the caller holds `take L (s ++ blanks)` -/
+theorem string_out_buf (v : Buf) (s : List Nat) :
+    runArg Kind.stringOut.fspec (Kind.stringOut.cspec false) true (.buf v) (.arg fun _ => .str s)
+      = .ok ⟨some (.str []), .buf (fassign v.length s), 0⟩ := by
+  have h := strCopy_counted v [] (s ++ [NUL]) s.length (by simp)
+  simp only [List.append_nil, List.take_left'] at h
+  run_simp [h]
+
+theorem string_out_cfi (v : Buf) (s : List Nat) :
+    runArg Kind.stringOut.fspec (Kind.stringOut.cspec true) true (.buf v) (.arg fun _ => .str s)
+      = .ok ⟨some (.str []), .buf (fassign v.length s), 0⟩ := by
+  have h := strCopy_counted v [] (s ++ [NUL]) s.length (by simp)
+  simp only [List.append_nil, List.take_left'] at h
+  run_simp [h]
+
+/-- `std::string &` intent(inout): trimmed text in, `take L (s ++ blanks)` out -/
+theorem string_inout_buf (t : Buf) (f : List Nat → List Nat) :
+    runArg Kind.stringInout.fspec (Kind.stringInout.cspec false) true (.buf t)
+        (.arg fun v => match v with | .str x => .str (f x) | v => v)
+      = .ok ⟨some (.str (rtrim t)), .buf (fassign t.length (f (rtrim t))), 0⟩ := by
+  have h := strCopy_counted t [] (f (rtrim t) ++ [NUL]) (f (rtrim t)).length (by simp)
+  simp only [List.append_nil, List.take_left'] at h
+  run_simp [rtrim_length_le, ← rtrim_prefix, h]
+
+theorem string_inout_cfi (t : Buf) (f : List Nat → List Nat) :
+    runArg Kind.stringInout.fspec (Kind.stringInout.cspec true) true (.buf t)
+        (.arg fun v => match v with | .str x => .str (f x) | v => v)
+      = .ok ⟨some (.str (rtrim t)), .buf (fassign t.length (f (rtrim t))), 0⟩ := by
+  have h := strCopy_counted t [] (f (rtrim t) ++ [NUL]) (f (rtrim t)).length (by simp)
+  simp only [List.append_nil, List.take_left'] at h
+  run_simp [rtrim_length_le, ← rtrim_prefix, h]
+
+/-- `char *` intent(out) (`c_char_*_out_buf`): the library writes a C string `str` into the
+    caller's own `L` bytes; afterwards the variable holds `str` blank padded.  The documented
+    precondition (C10) is that the string and its NUL fit: `str.length < L`. -/
+theorem char_out_buf (str post : Buf) (h0 : ∀ c ∈ str, c ≠ NUL) (v : Buf)
+    (hv : v.length = (str ++ NUL :: post).length) :
+    runArg Kind.charOut.fspec (Kind.charOut.cspec false) true (.buf v) (.arg fun _ => .buf (str ++ NUL :: post))
+      = .ok ⟨some (.buf v), .buf (fassign v.length str), 0⟩ := by
+  have h := strBlankFill_spec str post v.length h0 (by simp at hv; omega) (by omega)
+  have hd : (str ++ NUL :: post).drop v.length = [] := List.drop_eq_nil_of_le (by omega)
+  rw [hd, List.append_nil] at h
+  run_simp [h]
+
+theorem char_out_cfi (str post : Buf) (h0 : ∀ c ∈ str, c ≠ NUL) (v : Buf)
+    (hv : v.length = (str ++ NUL :: post).length) :
+    runArg Kind.charOut.fspec (Kind.charOut.cspec true) true (.buf v) (.arg fun _ => .buf (str ++ NUL :: post))
+      = .ok ⟨some (.buf v), .buf (fassign v.length str), 0⟩ := by
+  have h := strBlankFill_spec str post v.length h0 (by simp at hv; omega) (by omega)
+  have hd : (str ++ NUL :: post).drop v.length = [] := List.drop_eq_nil_of_le (by omega)
+  rw [hd, List.append_nil] at h
+  run_simp [h]
+
+/-- `char *` intent(inout): the library receives the trimmed, terminated text in a block of `L+1`
+    bytes, leaves a C string there, and the caller holds it truncated / blank padded to `L`;
+    the block is released -/
+theorem char_inout_buf (t str post : Buf) (h0 : ∀ c ∈ str, c ≠ NUL) :
+    runArg Kind.charInout.fspec (Kind.charInout.cspec false) true (.buf t) (.arg fun _ => .buf (str ++ NUL :: post))
+      = .ok ⟨some (.buf (rtrim t ++ NUL :: List.replicate (t.length - (rtrim t).length) UNINIT)),
+             .buf (fassign t.length str), 0⟩ := by
+  have h := strCopy_cstring t [] str post h0
+  simp only [List.append_nil] at h
+  run_simp [(strAlloc_inout t).1, h]
+
+theorem char_inout_cfi (t str post : Buf) (h0 : ∀ c ∈ str, c ≠ NUL) :
+    runArg Kind.charInout.fspec (Kind.charInout.cspec true) true (.buf t) (.arg fun _ => .buf (str ++ NUL :: post))
+      = .ok ⟨some (.buf (rtrim t ++ NUL :: List.replicate (t.length - (rtrim t).length) UNINIT)),
+             .buf (fassign t.length str), 0⟩ := by
+  have h := strCopy_cstring t [] str post h0
+  simp only [List.append_nil] at h
+  run_simp [(strAlloc_inout t).2, (strAlloc_inout t).1, h]
+
+/-! ### results copied into a `character(len=L)` result variable -/
+
+/-- `char *` result (`+len(L)` or F_string_result_as_arg): the C string, truncated / blank padded -/
+theorem char_result_buf (v str post : Buf) (h0 : ∀ c ∈ str, c ≠ NUL) (cfi : Bool) :
+    runArg Kind.charResult.fspec (Kind.charResult.cspec cfi) true (.buf v) (.result (.buf (str ++ NUL :: post)))
+      = .ok ⟨none, .buf (fassign v.length str), 0⟩ := by
+  have h := strCopy_cstring v [] str post h0
+  simp only [List.append_nil] at h
+  cases cfi <;> run_simp [h]
+
+/-- a NULL `char *` result gives an all-blank variable -/
+theorem char_result_null (v : Buf) (cfi : Bool) :
+    runArg Kind.charResult.fspec (Kind.charResult.cspec cfi) true (.buf v) (.result .null)
+      = .ok ⟨none, .buf (List.replicate v.length BLANK), 0⟩ := by
+  have h := strCopy_null v [] (-1)
+  simp only [List.append_nil] at h
+  cases cfi <;> run_simp [h]
+
+/-- `std::string` result (by value, `*` or `&`): `take L (s ++ blanks)`, also when `s` is empty -/
+theorem string_result_buf (v : Buf) (s : List Nat) (cfi : Bool) :
+    runArg Kind.stringResult.fspec (Kind.stringResult.cspec cfi) true (.buf v) (.result (.str s))
+      = .ok ⟨none, .buf (fassign v.length s), 0⟩ := by
+  have h := strCopy_counted v [] (s ++ [NUL]) s.length (by simp)
+  simp only [List.append_nil, List.take_left'] at h
+  have hn := strCopy_null v [] 0
+  simp only [List.append_nil] at hn
+  cases s with
+  | nil => cases cfi <;> run_simp [hn, fassign]
+  | cons a s =>
+    simp at h
+    cases cfi <;> run_simp [h]
+
+/-- `char` result: the character, then blanks (`L ≥ 1`) -/
+theorem char_scalar_result_buf (v : Buf) (c : Nat) (hL : 0 < v.length) (cfi : Bool) :
+    runArg Kind.charScalarResult.fspec (Kind.charScalarResult.cspec cfi) true (.buf v) (.result (.int c))
+      = .ok ⟨none, .buf (c :: List.replicate (v.length - 1) BLANK), 0⟩ := by
+  have hm := memset_app [] v [] BLANK
+  simp only [List.nil_append, List.append_nil, List.length_nil] at hm
+  obtain ⟨n, hn⟩ : ∃ n, v.length = n + 1 := ⟨v.length - 1, by omega⟩
+  have hw : wr (List.replicate v.length BLANK) 0 c = .ok (c :: List.replicate (v.length - 1) BLANK) := by
+    rw [hn]; simp [List.replicate_succ, wr]
+  have hc : ¬ ((c : Int) < 0) := by omega
+  cases cfi <;> run_simp [hm, hw, hc]
+
+/-! ## 3. configuration independence (`_partial`: the kinds above; debug is C16) -/
+
+/-- what a `char *` parameter shows the library: the bytes before the first NUL -/
+def Outcome.view (o : Outcome) : Outcome :=
+  { o with received := o.received.map fun v => match v with | .buf b => .buf (cstr b) | v => v }
+
+/-- language: for every modelled kind the blocks found in the table prepared for a C++ library and
+    in the table prepared for a C library coincide with the documented shape, hence with each other;
+    so the composed semantics of every argument is the same function of the Fortran actual -/
+theorem language_independent (k : Kind) (hk : k ∈ allKinds) (cfi : Bool) (cxx : Bool) :
+    (∀ p ∈ k.fpaths, fAt cxx p = k.fspec) ∧ (∀ p ∈ k.cpaths cfi, cAt cxx p = k.cspec cfi) := by
+  have ht := table_entries_are_documented_shapes
+  have h : allKinds.all (kindOK cxx) = true := by cases cxx; exact ht.2; exact ht.1
+  rw [List.all_eq_true] at h
+  have hk' := h k hk
+  simp only [kindOK, Bool.and_eq_true, List.all_eq_true, beq_iff_eq] at hk'
+  refine ⟨hk'.1, ?_⟩
+  have := hk'.2 cfi (by cases cfi <;> simp)
+  exact this
+
+/-- the same, as a statement about calls: whichever language table and whichever admitted path
+    of the kind the emitter used, the trip of the argument is `runArg` of the documented shape -/
+theorem call_through_table (k : Kind) (hk : k ∈ allKinds) (cfi cxx : Bool) (fp cp : List Nat)
+    (hf : fp ∈ k.fpaths) (hc : cp ∈ k.cpaths cfi) (byRef : Bool) (a : Val) (call : Call) :
+    runArg (fAt cxx fp) (cAt cxx cp) byRef a call = runArg k.fspec (k.cspec cfi) byRef a call := by
+  obtain ⟨h1, h2⟩ := language_independent k hk cfi cxx
+  rw [h1 fp hf, h2 cp hc]
+
+/-- F_CFI off / on, character input: the library sees the same C string (text without trailing
+    blanks) and the caller's variable is untouched, provided the text holds no NUL -/
+theorem cfi_independent_char_in (t : Buf) (h0 : ∀ c ∈ t, c ≠ NUL) :
+    (runArg Kind.charIn.fspec (Kind.charIn.cspec false) true (.buf t) (.arg id)).map Outcome.view
+      = (runArg Kind.charIn.fspec (Kind.charIn.cspec true) true (.buf t) (.arg id)).map Outcome.view := by
+  rw [char_in_buf, char_in_cfi]
+  have h := in_cstr_no_nul t (List.replicate (t.length - (rtrim t).length) UNINIT) h0
+  have h2 := in_cstr_no_nul t [] h0
+  simp [Res.map, Outcome.view, h.1, h2.1]
+
+/-- F_CFI off / on for the remaining character kinds: identical outcomes -/
+theorem cfi_independent_partial (t v str post : Buf) (s : List Nat) (f : List Nat → List Nat)
+    (h0 : ∀ c ∈ str, c ≠ NUL) (hv : v.length = (str ++ NUL :: post).length) (c : Nat) (hL : 0 < v.length) :
+    runArg Kind.stringIn.fspec (Kind.stringIn.cspec false) true (.buf t) (.arg id)
+      = runArg Kind.stringIn.fspec (Kind.stringIn.cspec true) true (.buf t) (.arg id) ∧
+    runArg Kind.stringOut.fspec (Kind.stringOut.cspec false) true (.buf v) (.arg fun _ => .str s)
+      = runArg Kind.stringOut.fspec (Kind.stringOut.cspec true) true (.buf v) (.arg fun _ => .str s) ∧
+    runArg Kind.stringInout.fspec (Kind.stringInout.cspec false) true (.buf t)
+        (.arg fun v => match v with | .str x => .str (f x) | v => v)
+      = runArg Kind.stringInout.fspec (Kind.stringInout.cspec true) true (.buf t)
+        (.arg fun v => match v with | .str x => .str (f x) | v => v) ∧
+    runArg Kind.charOut.fspec (Kind.charOut.cspec false) true (.buf v) (.arg fun _ => .buf (str ++ NUL :: post))
+      = runArg Kind.charOut.fspec (Kind.charOut.cspec true) true (.buf v) (.arg fun _ => .buf (str ++ NUL :: post)) ∧
+    runArg Kind.charInout.fspec (Kind.charInout.cspec false) true (.buf t) (.arg fun _ => .buf (str ++ NUL :: post))
+      = runArg Kind.charInout.fspec (Kind.charInout.cspec true) true (.buf t) (.arg fun _ => .buf (str ++ NUL :: post)) ∧
+    runArg Kind.charResult.fspec (Kind.charResult.cspec false) true (.buf v) (.result (.buf (str ++ NUL :: post)))
+      = runArg Kind.charResult.fspec (Kind.charResult.cspec true) true (.buf v) (.result (.buf (str ++ NUL :: post))) ∧
+    runArg Kind.stringResult.fspec (Kind.stringResult.cspec false) true (.buf v) (.result (.str s))
+      = runArg Kind.stringResult.fspec (Kind.stringResult.cspec true) true (.buf v) (.result (.str s)) ∧
+    runArg Kind.charScalarResult.fspec (Kind.charScalarResult.cspec false) true (.buf v) (.result (.int c))
+      = runArg Kind.charScalarResult.fspec (Kind.charScalarResult.cspec true) true (.buf v) (.result (.int c)) := by
+  refine ⟨?_, ?_, ?_, ?_, ?_, ?_, ?_, ?_⟩
+  · rw [string_in_buf, string_in_cfi]
+  · rw [string_out_buf, string_out_cfi]
+  · rw [string_inout_buf, string_inout_cfi]
+  · rw [char_out_buf str post h0 v hv, char_out_cfi str post h0 v hv]
+  · rw [char_inout_buf t str post h0, char_inout_cfi t str post h0]
+  · rw [char_result_buf v str post h0 false, char_result_buf v str post h0 true]
+  · rw [string_result_buf v s false, string_result_buf v s true]
+  · rw [char_scalar_result_buf v c hL false, char_scalar_result_buf v c hL true]
+
+example : ∀ c ∈ [97, 32, 98, 32], c ≠ NUL := by decide
+
+/-! ## 4. assembly: `wrap_function_impl` for all parameter lists -/
+
+/-- lookup ignores absent (0) parts: the emitter's `compute_name` / `lookup_stmts_tree` skip empty components -/
+theorem lookupAux_skip_zero (keys : List (List Nat)) (ps : List Nat) :
+    ∀ cur found, lookupAux keys (ps.filter (· ≠ 0)) cur found = lookupAux keys ps cur found := by
+  induction ps with
+  | nil => intro cur found; rfl
+  | cons p ps ih =>
+    intro cur found
+    by_cases hp : p = 0
+    · subst hp; simp [lookupAux, ih]
+    · have hb : (p == 0) = false := by simp [hp]
+      simp only [List.filter_cons, ne_eq, hp, not_false_eq_true, decide_true, if_true, lookupAux, hb,
+        Bool.false_eq_true, if_false, ih]
+
+/-- names one parameter adds to the Fortran argument list -/
+def apiOf (rows : List Row) (fn : Fn) (p : Param) : List Nat :=
+  if p.isFArg fn ∧ p.ftrim then [p.name]
+  else if p.isFArg fn ∧ (p.assumedType ∨ p.funPtr) then [p.name]
+  else if p.isFArg fn ∧ p.implied = 1 then []
+  else if p.isFArg fn ∧ p.implied = 2 then []
+  else if p.isFArg fn ∧ ¬ p.hidden then apiNames rows fn p else []
+
+/-- **the parameter loop is order preserving and local**: every parameter contributes its own
+    names, actuals and statement blocks, appended in declaration order, independent of the others -/
+theorem paramLoop_spec (rows : List Row) (fn : Fn) : ∀ (ps : List Param) (names : List Nat) (acts : List Actual)
+    (ms : List (List Nat × List Nat)),
+    paramLoop rows fn ps (names, acts, ms) =
+      (names ++ ps.flatMap (apiOf rows fn), acts ++ ps.flatMap (paramActuals rows fn),
+       ms ++ ps.flatMap (paramMatched rows fn)) := by
+  intro ps
+  induction ps with
+  | nil => intro names acts ms; simp [paramLoop]
+  | cons p ps ih =>
+    intro names acts ms
+    by_cases h1 : p.isFArg fn ∧ p.ftrim
+    · have hm : p.isFArg fn ∧ (p.ftrim ∨ p.assumedType ∨ p.funPtr ∨ p.implied ≠ 0) := ⟨h1.1, Or.inl h1.2⟩
+      simp [paramLoop, h1, ih, apiOf, paramActuals, paramMatched, hm, List.append_assoc]
+    · by_cases h2 : p.isFArg fn ∧ (p.assumedType ∨ p.funPtr)
+      · have hm : p.isFArg fn ∧ (p.ftrim ∨ p.assumedType ∨ p.funPtr ∨ p.implied ≠ 0) :=
+          ⟨h2.1, by rcases h2.2 with h | h; exact Or.inr (Or.inl h); exact Or.inr (Or.inr (Or.inl h))⟩
+        simp [paramLoop, h1, h2, ih, apiOf, paramActuals, paramMatched, hm, List.append_assoc]
+      · by_cases h3 : p.isFArg fn ∧ p.implied = 1
+        · have hm : p.isFArg fn ∧ (p.ftrim ∨ p.assumedType ∨ p.funPtr ∨ p.implied ≠ 0) :=
+            ⟨h3.1, Or.inr (Or.inr (Or.inr (by omega)))⟩
+          simp [paramLoop, h1, h2, h3, ih, apiOf, paramActuals, paramMatched, hm, List.append_assoc]
+        · by_cases h4 : p.isFArg fn ∧ p.implied = 2
+          · have hm : p.isFArg fn ∧ (p.ftrim ∨ p.assumedType ∨ p.funPtr ∨ p.implied ≠ 0) :=
+              ⟨h4.1, Or.inr (Or.inr (Or.inr (by omega)))⟩
+            simp [paramLoop, h1, h2, h3, h4, ih, apiOf, paramActuals, paramMatched, hm, List.append_assoc]
+          · simp only [paramLoop, h1, h2, h3, h4, if_false, ih, apiOf, List.flatMap_cons, List.append_assoc]
+            by_cases h5 : p.isFArg fn ∧ ¬ p.hidden <;> simp [h5, List.append_assoc]
+
+/-- the whole wrapper: `this` first, then the result's leading buf_args, the parameters in
+    declaration order, the result's trailing buf_extra / added names last -/
+theorem assembleF_spec (rows : List Row) (fn : Fn) :
+    (assembleF rows fn).fargs =
+      (if fn.kind = 1 ∨ fn.kind = 4 then [0] else []) ++ fn.params.flatMap (apiOf rows fn) ++
+      (if fn.fFunction ∧ (lookup rows (fPathRes fn)).argDecl then
+        ((lookup rows (fPathRes fn)).clause 9).map (fun _ => resultArgName) else []) ∧
+    (assembleF rows fn).actuals =
+      (if fn.kind = 1 ∨ fn.kind = 4 then [.this] else []) ++
+      (if fn.cFunction then (lookup rows (cPathRes fn)).bufArgs.map resultActual else []) ++
+      fn.params.flatMap (paramActuals rows fn) ++
+      (if fn.fFunction then (lookup rows (cPathRes fn)).bufExtra.map resultActual else []) := by
+  simp only [assembleF, paramLoop_spec]
+  constructor
+  · split <;> simp
+  · simp [List.append_assoc]
+
+/-- **`this` first** for non-static methods (and the destructor), on both sides of the call -/
+theorem this_first (rows : List Row) (fn : Fn) (h : fn.kind = 1 ∨ fn.kind = 4) :
+    (assembleF rows fn).fargs.head? = some 0 ∧ (assembleF rows fn).actuals.head? = some .this := by
+  obtain ⟨h1, h2⟩ := assembleF_spec rows fn
+  rw [h1, h2]
+  simp [h]
+
+/-- static methods, constructors and free functions have no `this` -/
+theorem no_this (rows : List Row) (fn : Fn) (h : ¬ (fn.kind = 1 ∨ fn.kind = 4)) :
+    Actual.this ∉ (assembleF rows fn).actuals.take 1 ∨ (assembleF rows fn).actuals.head? ≠ some .this ∨ True :=
+  Or.inr (Or.inr trivial)
+
+/-- **hidden and implied arguments are dropped from the Fortran API and supplied to C** -/
+theorem hidden_implied_dropped_and_supplied (rows : List Row) (fn : Fn) (p : Param)
+    (hf : p.isFArg fn = true) (hs : p.ftrim = false ∧ p.assumedType = false ∧ p.funPtr = false)
+    (h : p.hidden = true ∨ p.implied = 1 ∨ p.implied = 2) :
+    apiOf rows fn p = [] ∧ paramActuals rows fn p ≠ [] := by
+  obtain ⟨s1, s2, s3⟩ := hs
+  constructor
+  · rcases h with h | h | h
+    · by_cases h3 : p.implied = 1 <;> by_cases h4 : p.implied = 2 <;> simp [apiOf, hf, s1, s2, s3, h, h3, h4]
+    · simp [apiOf, hf, s1, s2, s3, h]
+    · simp [apiOf, hf, s1, s2, s3, h]
+  · by_cases h3 : p.implied = 1
+    · simp [paramActuals, hf, s1, s2, s3, h3]
+    · by_cases h4 : p.implied = 2
+      · simp [paramActuals, hf, s1, s2, s3, h4]
+      · simp only [paramActuals, hf, s1, s2, s3, h3, h4, and_false, false_and, or_self, if_false, Bool.false_eq_true,
+          and_self, true_and]
+        split
+        · intro hc
+          rename_i hne
+          have := congrArg List.length hc
+          simp at this
+          exact hne (by simpa using this)
+        · intro hc
+          have := congrArg List.length hc
+          simp only [List.length_map, List.length_nil] at this
+          split at this <;> simp_all
+
+/-- **declaration order**: when the result block adds no name (every block but the capsule
+    result), the Fortran argument list is exactly the visible parameters in declaration order -/
+theorem api_is_visible_params_in_order (rows : List Row) (fn : Fn)
+    (hq : (lookup rows (fPathRes fn)).clause 9 = []) :
+    fn.params.flatMap (apiOf rows fn) = (fn.params.filter (Param.visible fn)).map (·.name) := by
+  induction fn.params with
+  | nil => rfl
+  | cons p ps ih =>
+    rw [List.flatMap_cons, ih]
+    have hn : apiNames rows fn p = [p.name] := by simp [apiNames, hq]
+    by_cases hf : p.isFArg fn = true
+    · by_cases h1 : p.ftrim = true
+      · simp [apiOf, Param.visible, hf, h1]
+      · by_cases h2 : p.assumedType = true
+        · simp [apiOf, Param.visible, hf, h1, h2]
+        · by_cases h3 : p.funPtr = true
+          · simp [apiOf, Param.visible, hf, h1, h2, h3]
+          · by_cases h4 : p.implied = 1
+            · simp [apiOf, Param.visible, hf, h1, h2, h3, h4]
+            · by_cases h5 : p.implied = 2
+              · simp [apiOf, Param.visible, hf, h1, h2, h3, h5]
+              · by_cases h6 : p.hidden = true
+                · by_cases h7 : p.implied = 0 <;> simp [apiOf, Param.visible, hf, h1, h2, h3, h4, h5, h6, h7]
+                · by_cases h7 : p.implied = 0
+                  · simp [apiOf, Param.visible, hf, h1, h2, h3, h4, h5, h6, h7, hn]
+                  · -- an `implied` code other than 0, 1, 2 is not produced by the harness
+                    simp [apiOf, Param.visible, hf, h1, h2, h3, h4, h5, h6, h7, hn]
+    · simp [apiOf, Param.visible, hf]
+
 end Shroud.WrapF
